@@ -5,9 +5,10 @@ Proved: the decision structure (a block write succeeds exactly when the three va
 in the order read-only / unmapped / malformed), what each validation means in terms of the areas
 and registers the request overlaps, all-or-nothing on refusal, the touched marks and that the
 register descriptions are otherwise untouched.  NOT proved (correspondence only, named in
-DESIGN.md): that on success exactly the n addressed words change (`block_write_frame`).
+DESIGN.md): nothing - `block_write_frame` says that on success exactly the n addressed words change.
 -/
 import Ufw.Lemmas.RegFlat
+import Ufw.Lemmas.RegWrite
 
 namespace Ufw.Props.C02
 open Ufw Ufw.Model.RegTable Ufw.Lemmas.RegTable
@@ -173,5 +174,46 @@ theorem malformed_ok (cb : Nat → Value → Bool) (t : Table) (addr : Nat) (buf
             rcases List.mem_cons.mp he with rfl | hrest
             · exact ⟨a, raw, ha, hr, by simpa using hok, by simpa using hval⟩
             · exact ih hs'.2 hgo e hrest h1 h2
+
+/-- what a successful block write consists of -/
+theorem block_write_success_inv (cb : Nat → Value → Bool) (t : Table) (addr : Nat) (buf : List Atom) (hs : Shape t)
+    (hne : buf ≠ []) (hok : (register_block_write cb t addr buf).1.code = .success) :
+    t.initialised = true ∧ ra_malformed_write.go cb t addr buf buf.length t.entries = ⟨.success, 0⟩ ∧
+    ∃ t'', blockWriteLoop buf.length t addr buf = some t'' ∧
+      (register_block_write cb t addr buf).2 = reg_taint_in_range t'' addr buf.length := by
+  have hi : t.initialised = true := by
+    cases h : t.initialised with
+    | true => rfl
+    | false => simp [register_block_write, h] at hok
+  rw [decision cb t hs.wf hi addr buf hne] at hok ⊢
+  refine ⟨hi, ?_⟩
+  rcases hw : ra_writeable t addr buf.length with ⟨c, a⟩
+  rw [hw] at hok
+  cases c <;> try (simp at hok)
+  cases hh : firstHole t addr buf.length with
+  | some x => rw [hh] at hok; simp at hok
+  | none =>
+    rw [hh] at hok
+    simp only at hok ⊢
+    rcases hm : ra_malformed_write cb t addr buf with ⟨c2, a2⟩
+    rw [hm] at hok
+    cases c2 <;> try (simp at hok)
+    have hm' := malformed_succ cb t addr buf t.entries (by rw [← malformed_eq, hm])
+    cases hb : blockWriteLoop buf.length t addr buf with
+    | none => rw [hb] at hok; simp [oob] at hok
+    | some t'' => exact ⟨hm', t'', rfl, rfl⟩
+
+/-- on success exactly the n addressed words change: every area keeps everything but its content, and the cell
+    of area i at offset o holds the new word exactly when its address lies inside the request -/
+theorem block_write_frame (cb : Nat → Value → Bool) (t : Table) (addr : Nat) (buf : List Atom) (hs : Shape t)
+    (hne : buf ≠ []) (hok : (register_block_write cb t addr buf).1.code = .success) :
+    ∀ (i : Nat) (a : Area), t.areas[i]? = some a →
+      ∃ a', (register_block_write cb t addr buf).2.areas[i]? = some a' ∧ a' = { a with mem := a'.mem } ∧
+        a'.mem.length = a.mem.length ∧
+        ∀ o, o < a.size → a'.mem.getD o 0 =
+          if addr ≤ a.base + o ∧ a.base + o < addr + buf.length then buf.getD (a.base + o - addr) 0 else a.mem.getD o 0 := by
+  obtain ⟨_, _, t'', hb, ht'⟩ := block_write_success_inv cb t addr buf hs hne hok
+  rw [ht']
+  exact (blockWrite_spec buf.length t addr buf t'' hs hb).2.2.2
 
 end Ufw.Props.C02
